@@ -4,7 +4,7 @@ Creates a scratch copy of /repo's tree (tracked files of src/ + setup.py), appli
 demonstration (exit 0 unchanged / exit 1 changed; rebuilding the extension when the .pyx changed), runs the
 named checks (default: the property in meta.json) with CATII_REPO=<scratch>, prints a summary line, removes the scratch."""
 import json, os, shutil, subprocess, sys, tempfile
-src = sys.argv[1].rstrip("/")
+src = os.path.abspath(sys.argv[1].rstrip("/"))
 meta = json.load(open(os.path.join(src, "meta.json")))
 checks = sys.argv[2:] or [meta["property"]]
 tmp = tempfile.mkdtemp(prefix="seedeval-")
